@@ -122,6 +122,11 @@ impl Panicked {
     /// file:line of the panic, with the path shortened to start at the crate directory
     pub fn site(&self) -> String {
         let loc = self.what.split(": ").next().unwrap_or("?");
+        if let Some(i) = loc.find("/registry/src/") {
+            // a dependency: crate-version/src/file.rs:line
+            let rest = &loc[i + "/registry/src/".len()..];
+            return rest.split_once('/').map(|x| x.1).unwrap_or(rest).to_string();
+        }
         match loc.find("ruzstd/src/") {
             Some(i) => loc[i..].to_string(),
             None => match loc.find("/src/") {
@@ -129,6 +134,14 @@ impl Panicked {
                 None => loc.to_string(),
             },
         }
+    }
+}
+
+impl Panicked {
+    /// did the panic come from the harness (a bug in the monitor) rather than from the code under test?
+    pub fn in_harness(&self) -> bool {
+        let loc = self.what.split(": ").next().unwrap_or("?");
+        loc.starts_with("mon/src") || loc.starts_with("wlcore/src") || loc.starts_with("zspec/src") || loc.contains("/verif/harness/")
     }
 }
 
@@ -359,6 +372,18 @@ impl Recorder {
     }
     pub fn inconclusive(&self, why: &str) {
         self.inconclusive.lock().unwrap().push(why.to_string());
+    }
+
+    /// A panic escaped from a call into the library: a violation, unless the panic is in the harness itself (inconclusive)
+    pub fn panic_violation(&self, p: &Panicked, discriminator: &str, mut detail: Value, replay: Value) {
+        if p.in_harness() {
+            self.inconclusive(&format!("harness panic {}", p.what));
+            return;
+        }
+        if let Value::Object(o) = &mut detail {
+            o.insert("panic".into(), json!(p.what));
+        }
+        self.violation(Sig::new("panic", &p.site(), discriminator), detail, replay);
     }
 
     /// Report that the property was violated. `replay` must contain everything needed to reproduce the case.
